@@ -75,6 +75,17 @@ static ChunkList UsedList;
 static String   CTargName;
 static unsigned NumCBlocks;
 
+/* Tektronix hex checksums add up the hex digits, not the bytes */
+
+static unsigned DigitSum(LongWord Value) {
+    unsigned Sum = 0;
+
+    for (; Value; Value >>= 4) {
+        Sum += Value & 15;
+    }
+    return Sum;
+}
+
 static void DefStartStopAdr(LongWord SegMask) {
     Byte Seg;
 
@@ -499,7 +510,7 @@ static void ProcessFile(char const* FileName, LongWord Offset) {
                     case eHexFormatTek:
                         errno = 0;
                         fprintf(TargFile, "/%04X%02X%02X", LoWord(ErgStart), Lo(TransLen),
-                                Lo(Lo(ErgStart) + Hi(ErgStart) + TransLen));
+                                Lo(DigitSum(LoWord(ErgStart)) + DigitSum(Lo(TransLen))));
                         ChkIO(TargName);
                         ChkSum = 0;
                         break;
@@ -602,7 +613,8 @@ static void ProcessFile(char const* FileName, LongWord Offset) {
                                 errno = 0;
                                 fprintf(TargFile, "%02X", Lo(Buffer[z]));
                                 ChkIO(TargName);
-                                ChkSum += Buffer[z];
+                                ChkSum += (ActFormat == eHexFormatTek) ? DigitSum(Buffer[z])
+                                                                       : Buffer[z];
                                 SumLen++;
                             }
                         }
